@@ -44,6 +44,15 @@ type half struct {
 	reset   bool
 	total   int // bytes ever written
 	window  int // how many unread bytes fit (receive buffer + send queue); 0 = unbounded
+	// resetErr is what reads and writes report once reset is set (ECONNRESET unless the connection was lost silently)
+	resetErr error
+}
+
+func (h *half) lostErr() error {
+	if h.resetErr != nil {
+		return h.resetErr
+	}
+	return syscall.ECONNRESET
 }
 
 // VConn is one end of a virtual connection.
@@ -287,7 +296,7 @@ func (c *VConn) Read(b []byte) (int, error) {
 	case c.closed:
 		return 0, opErr("read", c, errClosed)
 	case c.in.reset:
-		return 0, opErr("read", c, syscall.ECONNRESET)
+		return 0, opErr("read", c, c.in.lostErr())
 	case c.in.rclosed:
 		return 0, io.EOF
 	case len(c.in.buf) > 0:
@@ -338,7 +347,7 @@ func (c *VConn) Write(b []byte) (int, error) {
 		case c.out.wclosed:
 			return written, opErr("write", c, syscall.EPIPE)
 		case c.out.reset:
-			return written, opErr("write", c, syscall.ECONNRESET)
+			return written, opErr("write", c, c.out.lostErr())
 		case c.peer.closed:
 			return written, opErr("write", c, syscall.EPIPE)
 		case c.wrExp:
@@ -431,6 +440,17 @@ func (c *VConn) Reset() {
 	defer c.lock()()
 	sched.Op("net-reset", c)
 	c.in.reset, c.out.reset = true, true
+	c.in.buf, c.out.buf = nil, nil
+}
+
+// TimeoutLoss makes the connection die silently (the peer host crashed, or the path drops every packet): no FIN and
+// no RST ever arrives; pending and later reads and writes fail with ETIMEDOUT, as they do once the kernel gives up
+// retransmitting or the TCP user timeout expires. (ETIMEDOUT is a "temporary" error in Go's classification.)
+func (c *VConn) TimeoutLoss() {
+	defer c.lock()()
+	sched.Op("net-timeout-loss", c)
+	c.in.reset, c.out.reset = true, true
+	c.in.resetErr, c.out.resetErr = syscall.ETIMEDOUT, syscall.ETIMEDOUT
 	c.in.buf, c.out.buf = nil, nil
 }
 
